@@ -32,7 +32,14 @@ Import ListNotations.
 Local Open Scope N_scope.
 """
 
-END_MODES = ["llm_end", "empty", "none"]
+# how the chunks reach the handler and how the end is signalled:
+#   llm_end: push_chunk per chunk, on_llm_end          empty / none: push_chunk per chunk, push_chunk("") / (None)
+#   cb     : the LangChain callback path - on_llm_new_token(token, chunk=GenerationChunk) per chunk, on_llm_end
+#   cb0    : chat model - on_chat_model_start, an EMPTY first token, on_llm_new_token(token,
+#            chunk=ChatGenerationChunk) per chunk, on_llm_end
+END_MODES = ["llm_end", "empty", "none", "cb", "cb0"]
+PUSH_END_MODES = ("empty", "none")       # the end markers that are ignored while the prefix is pending
+WS_ALPHABET = " ab"                      # callback path: an alphabet with a whitespace letter
 
 # (prefix, suffix, stop) over the alphabet {a, b, c}; every pattern letter is in the alphabet
 CONFIGS = [
@@ -110,6 +117,16 @@ def systematic_configs():
             seen.add(key)
             out.append((cfg, name, l_end, l_empty))
     return out
+
+
+WS_MAP_1 = {"a": " ", "b": "a", "c": "b"}
+WS_MAP_2 = {"a": "a", "b": " ", "c": "b"}
+
+
+def rename_cfg(cfg, m):
+    def r(x):
+        return None if x is None else "".join(m[ch] for ch in x)
+    return (r(cfg[0]), r(cfg[1]), [r(x) for x in cfg[2]])
 
 
 # realistic multi-character patterns (besides those read from generation.py): stop sequences and
@@ -244,9 +261,24 @@ async def _drive(cls, prefix, suffix, stop, chunks, end, pipe=False):
 
         sink = cls()
         h.set_pipe_to(sink)
-    for c in chunks:
-        await h.push_chunk(c)
-    if end == "llm_end":
+    if end in ("cb", "cb0"):
+        from langchain.schema.messages import AIMessageChunk
+        from langchain.schema.output import ChatGenerationChunk, GenerationChunk
+
+        if end == "cb0":
+            await h.on_chat_model_start({}, [[]], run_id=None)
+            await h.on_llm_new_token("", chunk=ChatGenerationChunk(message=AIMessageChunk(content="")), run_id=None)
+        for c in chunks:
+            wrapped = (GenerationChunk(text=c) if end == "cb"
+                       else ChatGenerationChunk(message=AIMessageChunk(content=c)))
+            await h.on_llm_new_token(c, chunk=wrapped, run_id=None)
+        await h.on_llm_end(None, run_id=None)
+    else:
+        for c in chunks:
+            await h.push_chunk(c)
+    if end in ("cb", "cb0"):
+        pass
+    elif end == "llm_end":
         await h.on_llm_end(None, run_id=None)
     elif end == "empty":
         await h.push_chunk("")
@@ -301,6 +333,11 @@ def delivered(items):
 def classify(prefix, suffix, stop, text, chunks, end, got, comp):
     """Signature of the defect class of one oracle failure."""
     want = spec(prefix, suffix, stop, text)
+    if end in ("cb", "cb0"):
+        # the same chunks through push_chunk + on_llm_end: if that is right, the callback entry is at fault
+        o = drive_many([(prefix, suffix, stop, chunks, "llm_end")])[0]
+        if o[0] != "exc" and delivered(o[0]) == want and o[1] == want:
+            return "on_llm_new_token:tokens-through-callback-differ-from-push_chunk"
     body = text[len(prefix):] if prefix and text.startswith(prefix) else text
     stop_hit = any(s in body for s in stop)
     if got != want:
@@ -372,7 +409,8 @@ def _block_worker(args):
     hashes = []
     few_cuts = False
     if tspec[0] == "len":       # ("len", lo, hi): every text over ALPHABET with lo <= length <= hi
-        texts = ("".join(tup) for n in range(tspec[1], tspec[2] + 1) for tup in itertools.product(ALPHABET, repeat=n))
+        alpha = tspec[3] if len(tspec) > 3 else ALPHABET
+        texts = ("".join(tup) for n in range(tspec[1], tspec[2] + 1) for tup in itertools.product(alpha, repeat=n))
     else:                       # ("texts", [...]) all chunkings / ("fewcuts", [...]) at most 2 boundaries
         texts = tspec[1]
         few_cuts = tspec[0] == "fewcuts"
@@ -391,7 +429,7 @@ def _block_worker(args):
                 if h is not None:
                     h = hash_obs(h, o) if want_hash and not few_cuts else 0
                 got, comp = delivered(o[0]), o[1]
-                if end != "llm_end" and not seen:
+                if end in PUSH_END_MODES and not seen:
                     # documented: push_chunk("")/None is ignored while the prefix is pending
                     if got == "" and comp == "":
                         continue
@@ -406,7 +444,7 @@ def _block_worker(args):
             cur = fails.get(sig)
             size = (len(text), len(ch))
             payload = {"prefix": prefix, "suffix": suffix, "stop": stop, "chunks": ch, "end": end,
-                       "delivered": got, "completion": comp, "required": want if seen or end == "llm_end" else ""}
+                       "delivered": got, "completion": comp, "required": "" if (end in PUSH_END_MODES and not seen) else want}
             if cur is None or size < cur[0]:
                 fails[sig] = (size, payload, (cur[2] if cur else 0) + 1)
             else:
@@ -488,6 +526,17 @@ def gen_sampled_jobs(tier, rng, gen_cfgs):
         ch = random_chunking(rng, text, rng.choice([0.05, 0.2, 0.5, 1.0]))
         jobs.append((cfg[0], cfg[1], cfg[2], ch, rng.choice(END_MODES), False))
         dist["generation_py_runs"] += 1
+    # callback path with empty tokens anywhere (an empty token after the first one is an end marker):
+    # compared with the model only, the oracle does not judge these
+    n_empty = 300 if tier == "quick" else 3000
+    dist["callback_empty_token_runs"] = n_empty
+    for _ in range(n_empty):
+        cfg = rename_cfg(rng.choice(CONFIGS), rng.choice([WS_MAP_1, WS_MAP_2]))
+        body = "".join(rng.choice(WS_ALPHABET) for _ in range(rng.randint(0, 8)))
+        ch = random_chunking(rng, (cfg[0] or "") + body, 0.5)
+        for _k in range(rng.randint(1, 2)):
+            ch.insert(rng.randint(0, len(ch)), "")
+        jobs.append((cfg[0], cfg[1], cfg[2], ch, rng.choice(["cb", "cb0"]), False))
     # piped handler: the downstream handler must receive exactly the same items
     n_pipe = 300 if tier == "quick" else 3000
     for _ in range(n_pipe):
@@ -532,7 +581,7 @@ def exhaustive_plan(tier, seed, gen_cfgs):
     info = {}
     # (1) the hand-picked configurations, long texts
     for ci, cfg in enumerate(CONFIGS):
-        for end in END_MODES:
+        for end in END_MODES[:3]:
             for length in range(0, o_len + 1):
                 with_model = length <= (x_len if end != "none" else 4)
                 if not with_model:
@@ -577,6 +626,33 @@ def exhaustive_plan(tier, seed, gen_cfgs):
             blocks.append((cfg, end, ("fewcuts", texts), C.REPO, False))
     info["realistic_configs"] = len(real)
     info["realistic_texts"] = n_real_texts
+    # (4) the LangChain callback entry path (on_llm_new_token ... on_llm_end), over an alphabet with a
+    #     whitespace letter: the pattern letters are renamed so that the first letter of the
+    #     configuration (the first letter of the prefix, if there is one) is the blank, and a
+    #     second time so that its second letter is
+    n_cb = 0
+    for ci, cfg in enumerate(CONFIGS):
+        for m in (WS_MAP_1, WS_MAP_2):
+            wcfg = rename_cfg(cfg, m)
+            blocks.append((wcfg, "cb", ("len", 0, 5, WS_ALPHABET), C.REPO, True))
+            blocks.append((wcfg, "cb0", ("len", 0, 4, WS_ALPHABET), C.REPO, True))
+            blocks.append((wcfg, "cb", ("len", 6, 6 + extra, WS_ALPHABET), C.REPO, False))
+            n_cb += 1
+    for i, (cfg, fam, l_end, l_empty) in enumerate(sysc):
+        maps = (WS_MAP_1, WS_MAP_2) if cfg[0] else (WS_MAP_1,)
+        for k, m in enumerate(maps):
+            wcfg = rename_cfg(cfg, m)
+            with_model = tier != "quick" or (i + seed + 3) % 12 == 0
+            blocks.append((wcfg, "cb" if k == 0 else "cb0", ("len", 0, 4, WS_ALPHABET), C.REPO, with_model))
+            n_cb += 1
+    for cfg in real:
+        texts = real_texts(cfg)
+        short = [t for t in texts if len(t) <= (10 if tier == "quick" else 13)]
+        if short:
+            blocks.append((cfg, "cb", ("texts", short), C.REPO, True))
+        blocks.append((cfg, "cb0", ("fewcuts", texts), C.REPO, False))
+        n_cb += 1
+    info["callback_path_configs"] = n_cb
 
     def weight(b):
         t = b[2]
@@ -635,7 +711,7 @@ def run(tier, seed, replay=None):
     dist = {}
     if not replay:
         blocks, plan_info = exhaustive_plan(tier, seed, gen_cfgs)
-        blocks = [bl for bl in blocks if not (use_old and "" in bl[0][2])]
+        blocks = [bl for bl in blocks if not (use_old and ("" in bl[0][2] or bl[1] in ("cb", "cb0")))]
         dist.update(plan_info)
         with ProcessPoolExecutor(max_workers=C.NPROC) as ex:
             for (cfg, end, hashes, runs, o_runs, nt, fl), bl in zip(ex.map(_block_worker, blocks, chunksize=2), blocks):
@@ -686,7 +762,7 @@ def run(tier, seed, replay=None):
         dist.update(d2)
         jobs += sj
     if use_old:
-        jobs = [j for j in jobs if "" not in j[2]]
+        jobs = [j for j in jobs if "" not in j[2] and j[4] not in ("cb", "cb0")]
     t3 = time.time()
     obs = drive_many(jobs)
     terms, kept = [], []
@@ -738,7 +814,7 @@ def run(tier, seed, replay=None):
             continue
         payload = {"prefix": prefix, "suffix": suffix, "stop": stop, "chunks": chunks, "end": end, "pipe": pipe,
                    "delivered": delivered(o[0]), "completion": o[1]}
-        if end != "llm_end" and not prefix_seen(prefix, text):
+        if end in PUSH_END_MODES and not prefix_seen(prefix, text):
             # documented decision: push_chunk("")/None does not end a stream whose prefix is pending
             if delivered(o[0]) != "" or o[1] != "":
                 note("push_chunk:output-before-prefix", (len(text), len(chunks)), {**payload, "required": ""})
@@ -783,6 +859,9 @@ def run(tier, seed, replay=None):
         "(disable_buffering relies on it); for these end modes the required output applies to texts that start with "
         "the prefix, otherwise nothing may be delivered",
         "first stop sequence = leftmost start position over all stop sequences",
+        "callback path: LangChain passes chunk=GenerationChunk(text=token) / ChatGenerationChunk; only an EMPTY FIRST "
+        "token is dropped by on_llm_new_token, any later empty token is push_chunk's end-of-stream marker (modelled, "
+        "compared with the implementation, excluded from the theorem and the oracle)",
         "characters are code points (N); Python str operations startswith/endswith/find/slicing modelled on lists",
         "exhaustive model-vs-implementation comparison goes through a 61-bit polynomial hash of all observations of "
         "a text (collision probability ~2^-61 per text); differing texts are re-compared chunking by chunking",
